@@ -56,7 +56,6 @@ func (r *Run) checkSpeciatePartition(label string) {
 	}
 	r.Fn(FuncName(fn))
 	create := p.Func(PkgG, "createFirstSpecies")
-	addOrg := p.Func(PkgG, "Species.addOrganism")
 	speciesF := p.Field(PkgG, "Organism", "Species")
 	paths, complete := EnumIterPaths(fn, sh.outer, 2000)
 	if !complete {
@@ -70,17 +69,23 @@ func (r *Run) checkSpeciatePartition(label string) {
 			continue
 		}
 		nBack++
-		var creates, adds []ssa.CallInstruction
+		var creates []ssa.CallInstruction
+		var adds []*memberAdd // addOrganism calls, or the helper's append written in place
 		var backptrs []*ssa.Store
+		otherListWrites := 0 // a species' organism list replaced in some other way
 		for _, b := range ip.Blocks[:len(ip.Blocks)-1] {
 			for _, in := range b.Instrs {
+				if add, other := memberWrite(p, in); add != nil {
+					adds = append(adds, add)
+					continue
+				} else if other {
+					otherListWrites++
+					continue
+				}
 				switch x := in.(type) {
 				case ssa.CallInstruction:
-					switch x.Common().StaticCallee() {
-					case create:
+					if x.Common().StaticCallee() == create {
 						creates = append(creates, x)
-					case addOrg:
-						adds = append(adds, x)
 					}
 				case *ssa.Store:
 					if StoredField(x) == speciesF {
@@ -92,6 +97,8 @@ func (r *Run) checkSpeciatePartition(label string) {
 		pos := p.Pos(firstPos(ip))
 		lbl := label + ".path[" + pathKey(ip) + "]"
 		switch {
+		case otherListWrites > 0:
+			r.Bad(lbl, pos, fmt.Sprintf("one pass over an organism replaces a species' organism list %d time(s) other than by appending one organism to it: members are dropped or listed without the comparison", otherListWrites), ip.Describe(p)...)
 		case len(creates) == 1 && len(adds) == 0 && len(backptrs) == 0:
 			a := callArgTerms(tm, creates[0].Common())
 			okArgs := a[0].Op == "recv" && a[1].Op == "elem" && isParamIdx(a[1].Args[0], 2)
@@ -116,10 +123,10 @@ func (r *Run) checkSpeciatePartition(label string) {
 			r.Check(okArgs && justified, lbl, pos, "a new species is founded for the organism (no species exist / none was selected)",
 				"a new species is founded on a path where a compatible species may have been selected, or not for the current organism", ip.Describe(p)...)
 		case len(creates) == 0 && len(adds) == 1 && len(backptrs) == 1:
-			a := callArgTerms(tm, adds[0].Common())
-			best := adds[0].Common().Args[0]
+			best := adds[0].Species
+			orgT := tm.Of(adds[0].Org)
 			okSame := backptrs[0].Val == best
-			okOrg := a[1].Op == "elem" && isParamIdx(a[1].Args[0], 2) && tm.Of(backptrs[0].Addr.(*ssa.FieldAddr).X).String() == a[1].String()
+			okOrg := orgT.Op == "elem" && isParamIdx(orgT.Args[0], 2) && tm.Of(backptrs[0].Addr.(*ssa.FieldAddr).X).String() == orgT.String()
 			nonNil := false
 			for _, g := range ip.Conds {
 				if b, ok := g.Cond.(*ssa.BinOp); ok && (b.X == best || b.Y == best) {
@@ -172,23 +179,72 @@ func C08(p *Prog, r *Run) {
 	r.Rule("C08.2", "argmin under threshold: best species and best distance are updated together exactly when distance < threshold and distance < best-so-far; the distance is measured against the species' first organism", func() {
 		// distance arguments
 		a := callArgTerms(tm, &sh.compat.Call)
-		first := p.Func(PkgG, "Species.firstOrganism")
+		// the representative of the species under comparison: Species.firstOrganism() of it, or that helper's body
+		// written in place (nil for an empty list, else Organisms[0])
+		first := p.FuncOpt(PkgG, "Species.firstOrganism")
+		const curSpecies = "recv.Species[*]"
+		isRep := func(t *Term) bool {
+			if first != nil && isCallTo(t, first) && len(t.Args) == 1 && t.Args[0].String() == curSpecies {
+				return true
+			}
+			return t.Op == "elem" && t.String() == curSpecies+".Organisms[0]"
+		}
 		okOrg := a[0].Op == "field" && a[0].Name == "Genotype" && a[0].Args[0].Op == "elem" && isParamIdx(a[0].Args[0].Args[0], 2)
-		okRep := a[1].Op == "field" && a[1].Name == "Genotype" && isCallTo(a[1].Args[0], first) && a[1].Args[0].Args[0].String() == "recv.Species[*]"
+		okRep := a[1].Op == "field" && a[1].Name == "Genotype"
+		if okRep {
+			nRep := 0
+			for _, alt := range a[1].Args[0].Alternatives() {
+				switch {
+				case isRep(alt):
+					nRep++
+				case alt.Op == "nil":
+					// "no representative"; when and why this alternative is taken is examined per scan step below
+				default:
+					okRep = false
+				}
+			}
+			okRep = okRep && nRep > 0
+		}
 		r.Check(okOrg && okRep, "distance.arguments", p.Pos(sh.compat.Pos()), "distance(organism genome, representative genome)", "the distance is not measured between the organism's genome and the genome of the species' first organism: "+a[0].String()+" vs "+a[1].String())
 		// firstOrganism returns nil or Organisms[0]
-		tf := NewTermer(first)
-		okF := true
-		for _, b := range first.Blocks {
-			if ret, ok := b.Instrs[len(b.Instrs)-1].(*ssa.Return); ok {
-				for _, alt := range tf.Of(ret.Results[0]).Alternatives() {
-					if alt.Op != "nil" && alt.String() != "recv.Organisms[0]" {
+		if first != nil {
+			// on every path through it: Organisms[0], or nil because the list is empty (or there is no species)
+			tf := NewTermer(first)
+			okF := true
+			fpaths, fcomplete := EnumRegionPaths(first, first.Blocks[0], func(*ssa.BasicBlock) bool { return false }, 200)
+			nRet := 0
+			for _, fp := range fpaths {
+				if fp.End != "return" {
+					okF = false
+					continue
+				}
+				nRet++
+				ret := fp.Blocks[len(fp.Blocks)-1].Instrs[len(fp.Blocks[len(fp.Blocks)-1].Instrs)-1].(*ssa.Return)
+				rv := fp.ResolveAt(ret.Results[0])
+				if c, isConst := rv.(*ssa.Const); isConst && c.Value == nil {
+					why := false
+					for _, g := range fp.Conds {
+						if condImpliesEmpty(tf, g, "recv.Organisms") {
+							why = true
+						}
+						if x, y, ok := eqCond(tf, g); ok && ((x.Op == "recv" && y.Op == "nil") || (y.Op == "recv" && x.Op == "nil")) {
+							why = true
+						}
+					}
+					okF = okF && why
+					continue
+				}
+				for _, alt := range tf.Of(rv).Alternatives() {
+					if alt.String() != "recv.Organisms[0]" {
 						okF = false
 					}
 				}
 			}
+			okF = okF && fcomplete && nRet > 0
+			r.Check(okF, "representative", p.Pos(first.Pos()), "the representative is Organisms[0], nil only for an empty species", "firstOrganism does not return the first organism of the species (or returns nil for a species that has organisms)")
+		} else {
+			r.OK("representative", p.Pos(sh.compat.Pos()), "Species.firstOrganism no longer exists; the representative is read in place (distance.arguments)")
 		}
-		r.Check(okF, "representative", p.Pos(first.Pos()), "the representative is Organisms[0]", "firstOrganism does not return the first organism of the species")
 		// header phis: best species (pointer), best value (float), done flag
 		var bestSp, bestVal *ssa.Phi
 		for _, ph := range HeaderPhis(sh.inner) {
@@ -279,14 +335,39 @@ func C08(p *Prog, r *Run) {
 					fmt.Sprintf("the running best is updated to (%s, %s) on a path with distance<threshold=%v, distance<best-so-far=%v; both tests (strict, distance on the smaller side) must hold and both values must be set together", tm.Of(ns), tm.Of(nv), underThr, underBest), ip.Describe(p)...)
 			default:
 				okK := !(underThr && underBest)
-				// a species may be passed over only after its distance was measured (and failed a test), or because it has no representative
+				// a species may be passed over only after its distance was measured (and failed a test), or because it has no
+				// representative: the representative, as it is on this path, was tested and is nil, or the species' list is empty
 				noRep := false
+				sub := &IterPath{Blocks: ip.Blocks[:len(ip.Blocks)-1], End: "partial"}
 				for _, g := range ip.Conds {
-					gt := tm.Of(g.Cond)
-					if gt.Op == "bin" && gt.Args[1].Op == "nil" && isCallTo(gt.Args[0], first) {
-						if (gt.Name == "!=" && !g.True) || (gt.Name == "==" && g.True) {
-							noRep = true
+					if condImpliesEmpty(tm, g, curSpecies+".Organisms") {
+						noRep = true
+					}
+					b, ok := g.Cond.(*ssa.BinOp)
+					if !ok || !((b.Op == token.NEQ && !g.True) || (b.Op == token.EQL && g.True)) {
+						continue
+					}
+					x, y := b.X, b.Y
+					if tm.Of(x).Op == "nil" {
+						x, y = y, x
+					}
+					if tm.Of(y).Op != "nil" {
+						continue
+					}
+					// the value tested, as it is on this path; a constant nil says nothing about the species
+					xv := sub.Resolve(x)
+					if _, isConst := xv.(*ssa.Const); isConst {
+						continue
+					}
+					allRep := true
+					alts := tm.Of(xv).Alternatives()
+					for _, alt := range alts {
+						if !isRep(alt) {
+							allRep = false
 						}
+					}
+					if allRep && len(alts) > 0 {
+						noRep = true
 					}
 				}
 				if !evaluated && !noRep {
@@ -307,14 +388,17 @@ func C08(p *Prog, r *Run) {
 	r.Rule("C08.4", "only speciate assigns membership: addOrganism is called from speciate and createFirstSpecies only, createFirstSpecies from speciate only, and nobody else stores an organism's Species back pointer - so every organism that is in a species was compared with the representatives first", func() {
 		spec := p.Func(PkgG, "Population.speciate")
 		cfs := p.Func(PkgG, "createFirstSpecies")
-		add := p.Func(PkgG, "Species.addOrganism")
+		add := p.FuncOpt(PkgG, "Species.addOrganism")
 		back := p.Field(PkgG, "Organism", "Species")
 		nCalls, nSt := 0, 0
 		for _, fn := range p.SrcFuncs() {
-			for _, c := range CallsTo(fn, add) {
-				nCalls++
-				r.Check(fn == spec || fn == cfs, "addOrganism.caller:"+fn.Name(), p.Pos(c.Pos()), "called by the speciation code", FuncName(fn)+" puts an organism into a species without speciate's comparison with the representatives (nearest compatible species / founding when none is compatible)")
-			}
+			// calls of addOrganism, and the helper's append written in place (the helper's own append is not a site: its callers are)
+			Instrs(fn, func(_ *ssa.BasicBlock, _ int, in ssa.Instruction) {
+				if m, _ := memberWrite(p, in); m != nil && fn != add {
+					nCalls++
+					r.Check(fn == spec || fn == cfs, "addOrganism.caller:"+fn.Name(), p.Pos(in.Pos()), "called by the speciation code", FuncName(fn)+" puts an organism into a species without speciate's comparison with the representatives (nearest compatible species / founding when none is compatible)")
+				}
+			})
 			for _, c := range CallsTo(fn, cfs) {
 				nCalls++
 				r.Check(fn == spec, "createFirstSpecies.caller:"+fn.Name(), p.Pos(c.Pos()), "called by speciate", FuncName(fn)+" founds a species for an organism outside speciate: whether an existing representative is within the threshold is not examined")
@@ -356,49 +440,106 @@ func firstBlockPos(b *ssa.BasicBlock) token.Pos {
 
 // checkCreateFirstSpecies: LastSpecies is incremented before it is used as the id, the species is
 // created novel, appended to the population, and organism and species point at each other.
+// The species may be built by NewSpeciesNovel or by that constructor's body written in place
+// (another constructor plus stores to the new object): the rule looks at the state of the
+// new object when createFirstSpecies returns.
 func (r *Run) checkCreateFirstSpecies(label string) {
 	p := r.P
 	fn := p.Func(PkgG, "createFirstSpecies")
 	r.Fn(FuncName(fn))
 	tm := NewTermer(fn)
 	last := p.Field(PkgG, "Population", "LastSpecies")
+	var rets []*ssa.Return
+	for _, b := range fn.Blocks {
+		if ret, ok := b.Instrs[len(b.Instrs)-1].(*ssa.Return); ok {
+			rets = append(rets, ret)
+		}
+	}
+	// the one store LastSpecies = LastSpecies + 1, executed on every path
 	var inc *ssa.Store
-	for _, st := range FieldStores(fn, last) {
-		v := tm.Of(st.Val)
-		if v.Op == "bin" && v.Name == "+" && v.Args[0].String() == "p0.LastSpecies" && v.Args[1].String() == "1" {
+	lastStores := FieldStores(fn, last)
+	for _, st := range lastStores {
+		if isParamIdx(tm.Of(st.Addr.(*ssa.FieldAddr).X), 0) && plusOneOfField(tm, st.Val, 0, last) != nil {
 			inc = st
 		}
 	}
-	r.Check(inc != nil, label+".id-increment", p.Pos(fn.Pos()), "LastSpecies is incremented", "createFirstSpecies does not increment LastSpecies: species ids are reused")
-	ctor := p.Func(PkgG, "NewSpeciesNovel")
-	cs := CallsTo(fn, ctor)
-	if len(cs) != 1 {
-		r.Bad(label+".ctor", p.Pos(fn.Pos()), fmt.Sprintf("%d NewSpeciesNovel calls", len(cs)))
+	okInc := inc != nil && len(lastStores) == 1
+	if okInc {
+		for _, ret := range rets {
+			okInc = okInc && instrDominates(inc, ret)
+		}
+		for _, l := range Loops(fn) {
+			okInc = okInc && !l.Blocks[inc.Block()]
+		}
+	}
+	r.Check(okInc, label+".id-increment", p.Pos(fn.Pos()), "LastSpecies is incremented (once, on every path)", fmt.Sprintf("createFirstSpecies does not increment LastSpecies exactly once on every path (%d stores to it): species ids are reused", len(lastStores)))
+	// the new species
+	sums := NewSummaries(p)
+	fresh := freshSpeciesValues(p, sums, fn)
+	if len(fresh) != 1 {
+		r.Bad(label+".ctor", p.Pos(fn.Pos()), fmt.Sprintf("%d species constructions (NewSpeciesNovel or an equivalent fresh species), expected one", len(fresh)))
 		return
 	}
-	c := cs[0]
-	a := callArgTerms(tm, c.Common())
-	after := inc != nil && (inc.Block() == c.Block() && instrIndex(inc) < instrIndex(c) || inc.Block() != c.Block() && inc.Block().Dominates(c.Block()))
-	r.Check(a[0].String() == "p0.LastSpecies" && after, label+".id", p.Pos(c.Pos()), "the id is LastSpecies after the increment", "the new species' id is "+a[0].String()+" (increment before use: "+fmt.Sprint(after)+")")
-	r.Check(a[1].String() == "true", label+".novel", p.Pos(c.Pos()), "created novel", "the new species is not created novel: it is aged in the turnover that founded it")
-	sp := c.Value()
+	sp := fresh[0]
+	spPos := p.Pos(sp.Pos())
+	// its Id, IsNovel and Age when createFirstSpecies returns
+	idF, novF, ageF := p.Field(PkgG, "Species", "Id"), p.Field(PkgG, "Species", "IsNovel"), p.Field(PkgG, "Species", "Age")
+	okId, okNovel, okAge, why := len(rets) > 0, len(rets) > 0, len(rets) > 0, ""
+	idDesc, after := "?", false
+	for _, ret := range rets {
+		st := sums.ObjectAt(fn, sp, ret)
+		if st.Why != "" {
+			why = st.Why
+			break
+		}
+		okId1 := false
+		if id := st.Fields[idF]; id != nil {
+			idDesc = id.String()
+			if okInc && id.Op != "phi" && id.V != nil {
+				switch {
+				case id.V == inc.Val:
+					// the very value stored into LastSpecies
+					okId1, after = true, true
+				case loadOfParamField(tm, id.V, 0, last) != nil:
+					// LastSpecies read back: after the increment, which is the only store to it
+					after = instrDominates(inc, loadOfParamField(tm, id.V, 0, last))
+					okId1 = after
+				default:
+					// LastSpecies + 1 computed again from a read that precedes the increment
+					if ld := plusOneOfField(tm, id.V, 0, last); ld != nil {
+						after = instrDominates(ld, inc) && !mayPrecede(inc, ld)
+						okId1 = after
+					}
+				}
+			}
+		}
+		okId = okId && okId1
+		nov := st.Fields[novF]
+		okNovel = okNovel && nov != nil && nov.String() == "true"
+		age := st.Fields[ageF]
+		okAge = okAge && age != nil && age.String() == "1" && st.Fresh
+	}
+	if why != "" {
+		r.Undecided(label+".NewSpeciesNovel", spPos, "state of the new species: "+why)
+		return
+	}
+	r.Check(okId, label+".id", spPos, "the id is LastSpecies after the increment", "the new species' id is "+idDesc+" (increment before use: "+fmt.Sprint(after)+")")
+	r.Check(okNovel, label+".novel", spPos, "created novel", "the new species is not created novel: it is aged in the turnover that founded it")
 	appended, added, back := false, false, false
 	Instrs(fn, func(_ *ssa.BasicBlock, _ int, in ssa.Instruction) {
-		switch x := in.(type) {
-		case *ssa.Store:
+		if m, _ := memberWrite(p, in); m != nil && m.Species == sp && isParamIdx(tm.Of(m.Org), 1) {
+			added = true
+		}
+		if x, ok := in.(*ssa.Store); ok {
 			if f := StoredField(x); f != nil {
-				if f.Name() == "Species" && f == p.Field(PkgG, "Population", "Species") {
-					if v := tm.Of(x.Val); v.Op == "call" && v.Name == "append" && v.Args[0].String() == "p0.Species" {
+				if f == p.Field(PkgG, "Population", "Species") {
+					if base, elems, ok := appendCall(x.Val); ok && len(elems) == 1 && elems[0] == sp && tm.Of(base).String() == "p0.Species" && isParamIdx(tm.Of(x.Addr.(*ssa.FieldAddr).X), 0) {
 						appended = true
 					}
 				}
 				if f == p.Field(PkgG, "Organism", "Species") && x.Val == sp && isParamIdx(tm.Of(x.Addr.(*ssa.FieldAddr).X), 1) {
 					back = true
 				}
-			}
-		case ssa.CallInstruction:
-			if x.Common().StaticCallee() == p.Func(PkgG, "Species.addOrganism") && x.Common().Args[0] == sp && isParamIdx(tm.Of(x.Common().Args[1]), 1) {
-				added = true
 			}
 		}
 	})
@@ -415,15 +556,10 @@ func (r *Run) checkCreateFirstSpecies(label string) {
 		}
 	}
 	r.Check(len(others) == 0, label+".only-writer", p.Pos(fn.Pos()), "no other function writes LastSpecies", "LastSpecies is also written by "+strings.Join(others, "; ")+": an id can be issued twice")
-	// NewSpeciesNovel: Age 1, IsNovel <- param
-	sm := NewSummaries(p).Ctor(ctor)
-	if sm.Why == "" {
-		age := sm.Fields[p.Field(PkgG, "Species", "Age")]
-		nov := sm.Fields[p.Field(PkgG, "Species", "IsNovel")]
-		id := sm.Fields[p.Field(PkgG, "Species", "Id")]
-		r.Check(age != nil && age.String() == "1" && nov != nil && isParamIdx(nov, 1) && id != nil && isParamIdx(id, 0), label+".NewSpeciesNovel", p.Pos(ctor.Pos()), "Age 1, IsNovel and Id from the arguments",
-			fmt.Sprintf("NewSpeciesNovel: Age=%v IsNovel=%v Id=%v", age, nov, id))
-	} else {
-		r.Undecided(label+".NewSpeciesNovel", p.Pos(ctor.Pos()), sm.Why)
+	// the constructor: a fresh species of Age 1 (Id and IsNovel are examined above)
+	ctorPos := spPos
+	if c, ok := sp.(*ssa.Call); ok && c.Call.StaticCallee() != nil {
+		ctorPos = p.Pos(c.Call.StaticCallee().Pos())
 	}
+	r.Check(okAge, label+".NewSpeciesNovel", ctorPos, "a fresh species with Age 1, Id and IsNovel as given", "the new species is not a fresh object of Age 1 when createFirstSpecies returns")
 }
